@@ -29,6 +29,18 @@ def snapshot(nodes):
 
 
 def check_rotation(ctx, case):
+    """A tree operation that raises on a well-formed tree is a violation (bucket 'raised'), not a harness error."""
+    from . import engine as EN
+
+    try:
+        return _check_rotation(ctx, case)
+    except Exception as ex:
+        if not EN.raised_in_code_under_test(ex):
+            raise
+        return ctx.fail(("raised",) + EN.exc_site(ex), case, {"error": repr(ex)[:200]})
+
+
+def _check_rotation(ctx, case):
     shape = S.from_text(case["shape"])
     family = case["family"]
     root, nodes = S.build(shape, _maker(family))
